@@ -7,6 +7,7 @@ import Mathlib.Data.List.Basic
 import Mathlib.Tactic.Linarith
 import Mathlib.Tactic.Ring
 import Mathlib.Tactic.Positivity
+import PhotVerif.Gen.ForwardTable
 
 namespace PhotVerif.C14
 open PhotVerif.Model PhotVerif.Model.Peaks
@@ -256,5 +257,11 @@ theorem sepOffsets_centre (sep : Rat) (hs : 0 ≤ sep) : (0, 0) ∈ sepOffsets s
 -- non-vacuity / regression for F50: min_separation = 4.2 reaches 4 pixels to either side, not 5
 example : ((0 : Int), (4 : Int)) ∈ sepOffsets (21 / 5) ∧ ((0 : Int), (-4 : Int)) ∈ sepOffsets (21 / 5) ∧
     ((0 : Int), (5 : Int)) ∉ sepOffsets (21 / 5) := by decide +kernel
+
+/-! ### no delegating call in this property's modules drops an argument it holds (table regenerated from the source) -/
+
+/-- TABLE OBLIGATION: see `Gen/ForwardTable.lean` - every delegating call in these modules passes on each value the caller holds
+    under the callee's own parameter name (seed C14-r6 dropped `footprint` from the centroid refinement of `find_peaks`) -/
+theorem no_dropped_arguments : Gen.ForwardTable.droppedIn Gen.ForwardTable.scopeC14 = [] := by decide
 
 end PhotVerif.C14
